@@ -375,8 +375,9 @@ class ScipyOptimizeDriver(Driver):
                             # TODO add option for Hessian
                             # Double-sided constraints are accepted by the algorithm
                             args = [name, False, j]
-                            lb_j = np.maximum(lb[j], -INF_BOUND)
-                            ub_j = np.minimum(ub[j], INF_BOUND)
+                            # scipy expects an absent bound to be infinite
+                            lb_j = lb[j] if lb[j] > -INF_BOUND else -np.inf
+                            ub_j = ub[j] if ub[j] < INF_BOUND else np.inf
                             con = NonlinearConstraint(
                                 fun=signature_extender(
                                     WeakMethodWrapper(self, '_con_val_func'), args),
